@@ -27,7 +27,7 @@ class MemSocket:
     family = socket.AF_INET
     type = socket.SOCK_STREAM
 
-    def __init__(self, net, name, addr, peeraddr):
+    def __init__(self, net, name, addr, peeraddr, accepted_later=False):
         self.net = net
         self.name = name
         self.addr = addr
@@ -38,7 +38,10 @@ class MemSocket:
         self.eof = False          # peer closed / shut down its writing side
         self.reset = False        # peer reset: errors instead of EOF
         self.timeout = None
-        self.fd = net.next_fd()
+        self.fd = net.next_fd()       # unique for the lifetime of the network (identity for the harness)
+        # what fileno() reports: the lowest free descriptor number, reused after close like the kernel's (the server end of a
+        # connection gets its number when accept() returns it, not when the peer connects)
+        self.kfd = None if accepted_later else net.alloc_kfd()
         self.bytes_in = 0         # bytes written to this end by the peer
         self.bytes_read = 0
         self.sent = bytearray()   # everything this end wrote (for oracles)
@@ -137,12 +140,15 @@ class MemSocket:
         if self.closed:
             return
         self.closed = True
+        self.net.release_kfd(self.kfd)
         if self.peer is not None:
             self.peer.eof = True
         self.net.after_close(self)
 
     def do_reset(self):
         """abortive close: the peer sees ECONNRESET instead of an orderly end of stream"""
+        if not self.closed:
+            self.net.release_kfd(self.kfd)
         self.closed = True
         if self.peer is not None:
             self.peer.reset = True
@@ -169,7 +175,7 @@ class MemSocket:
         pass
 
     def fileno(self):
-        return self.fd if not self.closed else -1
+        return self.kfd if (not self.closed and self.kfd is not None) else -1
 
     def setblocking(self, flag):
         self.timeout = None if flag else 0.0
@@ -186,6 +192,7 @@ class MemListener:
         self.closed = False
         self.timeout = None
         self.fd = net.next_fd()
+        self.kfd = net.alloc_kfd()
 
     def __repr__(self):
         return "<MemListener %s:%s>" % self.addr
@@ -210,9 +217,13 @@ class MemListener:
                     raise OSError(errno.EBADF, "Bad file descriptor (mem listener)")
                 raise socket.timeout("accept timed out (mem)")
         sock = self.queue.popleft()
+        if sock.kfd is None and not sock.closed:
+            sock.kfd = self.net.alloc_kfd()
         return sock, sock.peeraddr
 
     def close(self):
+        if not self.closed:
+            self.net.release_kfd(self.kfd)
         self.closed = True
         self.net.listeners.pop(self.addr, None)
 
@@ -229,7 +240,7 @@ class MemListener:
         pass
 
     def fileno(self):
-        return self.fd if not self.closed else -1
+        return self.kfd if not self.closed else -1
 
     def shutdown(self, how):
         pass
@@ -245,15 +256,28 @@ class MemSelector:
         self.closed = False
 
     def register(self, fileobj, events, data=None):
-        fd = _raw(fileobj).fd
+        # like selectors.BaseSelector: keyed by the descriptor number fileno() reports now
+        fd = _raw(fileobj).fileno()
+        if fd < 0:
+            raise ValueError("Invalid file descriptor: {}".format(fd))
         if fd in self.map:
-            raise KeyError("already registered")
+            raise KeyError("{!r} (FD {}) is already registered".format(fileobj, fd))
         key = SelectorKey(fileobj, fd, events, data)
         self.map[fd] = key
         return key
 
     def unregister(self, fileobj):
-        fd = _raw(fileobj).fd
+        fd = _raw(fileobj).fileno()
+        if fd < 0 or fd not in self.map or self.map[fd].fileobj is not fileobj:
+            # a closed object is looked up by identity (as the real selectors do); unknown objects are a KeyError
+            for k in self.map.values():
+                if k.fileobj is fileobj:
+                    fd = k.fd
+                    break
+            else:
+                if fd < 0:
+                    raise ValueError("Invalid file descriptor: {}".format(fd))
+                raise KeyError("{!r} is not registered".format(fileobj))
         return self.map.pop(fd)
 
     def get_map(self):
@@ -273,10 +297,17 @@ class MemSelector:
         if s is not None:
             s.point("select")
         r = self._ready()
-        if r or s is None:
-            return r
-        s.block(lambda: bool(self._ready()) or self.closed, tmode=("tick" if timeout is not None else None), what="select")
-        return self._ready()
+        if not r and s is not None:
+            s.block(lambda: bool(self._ready()) or self.closed, tmode=("tick" if timeout is not None else None), what="select")
+            r = self._ready()
+        if s is not None and len(r) > 1 and self.order_choice:
+            # the order in which the kernel reports several ready descriptors is not defined: registration order by default,
+            # the reverse as a (budgeted) deviation
+            if s.chooser.choose("select-order", 2, [(0, 0), (1, 0)]):
+                r = r[::-1]
+        return r
+
+    order_choice = True
 
 
 class SelectorsShim(types.ModuleType):
@@ -327,6 +358,7 @@ class MemNet:
     def __init__(self):
         self.listeners = {}
         self._fd = 1000
+        self._kfds = set()
         self._port = 50000
         self._cport = 40000
         self.sockets = []
@@ -341,6 +373,17 @@ class MemNet:
     def next_fd(self):
         self._fd += 1
         return self._fd
+
+    def alloc_kfd(self):
+        k = 3
+        while k in self._kfds:
+            k += 1
+        self._kfds.add(k)
+        return k
+
+    def release_kfd(self, k):
+        if k is not None:
+            self._kfds.discard(k)
 
     # ------------------------------------------------------------------ installation
     def install(self):
@@ -397,7 +440,7 @@ class MemNet:
             self._cport += 1
             caddr = ("client", self._cport)
             c = MemSocket(self, "c%d" % self._cport, caddr, lst.addr)
-            srv = MemSocket(self, "s%d" % self._cport, lst.addr, caddr)
+            srv = MemSocket(self, "s%d" % self._cport, lst.addr, caddr, accepted_later=True)
             c.peer, srv.peer = srv, c
             c.timeout = timeout
             self.sockets.append((c, srv))
